@@ -718,7 +718,7 @@ theorem nextMarketID_unused (s : Store) (hc : knownMarketCount s < 2 ^ 32) :
     -- knownMarketCount + 1 different known ids among knownMarketCount entries
     let m := getLastAutoMarketID s + 1
     let L := (List.range (knownMarketCount s + 1)).map (fun i => keyKnownMarketID (m + UInt32.ofNat i))
-    let K := (s.entries.filter (fun e => prefixKnownMarket.isPrefixOf e.1)).map Prod.fst
+    let K := (Store.entries (s.filter (fun e => prefixKnownMarket.isPrefixOf e.1))).map Prod.fst
     have hnd : L.Nodup := by
       refine List.Nodup.map_on ?_ List.nodup_range
       intro i hi j hj e
@@ -732,8 +732,8 @@ theorem nextMarketID_unused (s : Store) (hc : knownMarketCount s < 2 ^ 32) :
       intro k hk
       obtain ⟨i, hi, rfl⟩ := List.mem_map.mp hk
       obtain ⟨v, hv⟩ := (has_iff _ _).mp (h i (List.mem_range.mp hi))
-      exact List.mem_map.mpr ⟨(_, v), List.mem_filter.mpr ⟨(mem_entries_iff s _ _).mpr hv, by
-        simp [prefixKnownMarket, keyKnownMarketID, List.isPrefixOf]⟩, rfl⟩
+      exact List.mem_map.mpr ⟨(_, v), (mem_entries_filter (fun k => prefixKnownMarket.isPrefixOf k) s _ _).mpr
+        ⟨by simp [prefixKnownMarket, keyKnownMarketID, List.isPrefixOf], hv⟩, rfl⟩
     have hlen := List.Nodup.length_le_of_subset hnd hsub
     simp only [L, K, List.length_map, List.length_range] at hlen
     unfold knownMarketCount at hlen hc
